@@ -729,7 +729,8 @@ pub fn c13(ctx: &mut Ctx) -> String {
         let prof = gen_profile(&mut ctx.rng, &t, kind);
         let mut case = json!({"op": "named", "tree": t.to_json(), "prof": prof_json(&prof)});
         if i % 3 == 2 {
-            let h = *ctx.rng.pick(&[0.05, 0.2, 0.34, 0.5, 0.9]);
+            // (thresholds that keep everything, nothing, and the one that compares with nothing)
+            let h = *ctx.rng.pick(&[0.05, 0.2, 0.34, 0.5, 0.9, f64::NAN, 1.5, -1.0, 0.0, 1.0]);
             case["truncate"] = fjson(h);
             ctx.stat("truncated_profiles");
         }
